@@ -30,6 +30,7 @@ class GenCfg:
         self.skipto = 0.02
         self.assoc = 0.0          # left / right joins (sep<{e}+ , sep>{e}+)
         self.includes = 0.0       # rule includes (>rule), to rules defined later only (acyclic)
+        self.based = 0.0          # based rules (name < base = exp), the base defined earlier
         self.reps = 0.14
         self.consts = 0.03
         self.dots = 0.02
@@ -150,7 +151,10 @@ def gen_grammar(rng: random.Random, cfg: GenCfg | None = None, depth: int = 3):
         fwd = names[i + 1:]
         back = names[:i + 1]
         e = gen_exp(rng, cfg, depth if i == 0 else depth - 1, fwd, back, False)
-        rules.append((name, [], e))
+        deco = []
+        if i >= 2 and rng.random() < cfg.based:
+            deco = ['base:' + rng.choice(names[1:i])]
+        rules.append((name, deco, e))
     return {'rules': rules, 'directives': {}, 'keywords': []}
 
 
@@ -170,7 +174,8 @@ def sample_sentence(rng: random.Random, g, e, depth=3) -> list[str]:
     if k in ('call', 'include'):
         if depth <= 0:
             return []
-        return sample_sentence(rng, g, rules[e[1]], depth - 1)
+        from enginelib import full_exp
+        return sample_sentence(rng, g, full_exp(g, e[1]), depth - 1)
     if k == 'seq':
         out = []
         for x in e[1]:
